@@ -144,6 +144,11 @@ pub struct StepOut {
 /// Apply one action to a fork of `c` (the real code runs here).
 pub fn step(w: &World, c: &Client, a: Action) -> StepOut {
     let f = if a == Action::Restart { c.restart() } else { c.fork() };
+    step_on(w, f, a)
+}
+
+/// Apply one action to this very client (no fork: forking a SQLite client rebuilds the MDK, which prunes by TTL).
+pub fn step_on(w: &World, f: Client, a: Action) -> StepOut {
     logcap::begin();
     let mut msg = None;
     let mut panicked = false;
@@ -199,6 +204,11 @@ pub fn step(w: &World, c: &Client, a: Action) -> StepOut {
         Action::Restart => "Ok".into(),
     };
     let recs = logcap::end();
+    if std::env::var("VERIF_TRACE_LOGS").is_ok() {
+        for r in &recs {
+            eprintln!("        log: {}", r.chars().take(300).collect::<String>());
+        }
+    }
     let leaks = logcap::scan(&recs, &w.secrets);
     let log_templates: Vec<u64> = recs.iter().map(|r| h64(&logcap::template(r))).collect();
     StepOut { client: f, result, leaks, msg, panicked, log_records: recs.len(), log_templates }
